@@ -18,7 +18,7 @@ from ..core.engine import Inapplicable, seed_lib_rng
 from ..core.world import World, pick, swarm_weights
 from .c01 import same
 
-DRAWINGS = ["square", "pentagon", "square_hole", "two_apart", "island", "three_nested", "circle", "circle_in_square", "stadium", "square_and_circle", "concave", "c_slot", "dshape", "lens", "plate_d_and_lens", "c_slot_island", "thin_c_around_bore", "thin_c_and_block", "two_frames_island", "five_frames", "keyhole", "plate_keyhole"]
+DRAWINGS = ["square", "pentagon", "square_hole", "two_apart", "island", "three_nested", "circle", "circle_in_square", "stadium", "square_and_circle", "concave", "c_slot", "dshape", "lens", "plate_d_and_lens", "c_slot_island", "thin_c_around_bore", "thin_c_and_block", "two_frames_island", "five_frames", "keyhole", "plate_keyhole", "triangles"]
 READS = ["paths", "discrete", "polygons_closed", "polygons_full", "area", "length", "is_closed", "body_count", "root", "enclosure_directed", "bounds", "extents", "identifier_hash", "enclosure_shell", "split"]
 OPS = ["read", "transform", "merge_vertices", "copy", "cache_clear", "reverse_entity", "roundtrip", "read_all", "process"]
 
@@ -96,6 +96,10 @@ def make_drawing(name, salt):
             cx = -16.0 + 8.0 * i
             out += [sq((cx, 0), 3.0, 0), sq((cx + 0.1 * i, 0), 1.0 + 0.2 * i, 1)]
         return out + [sq((-16.0, 0.05), 0.4, 2)]
+    if name == "triangles":
+        # the smallest closed polylines: three corners (four rows, three distinct points)
+        tri = lambda c, r, phase, depth: {"kind": "poly", "pts": _ngon(c, r, 3, phase, j, rs), "depth": depth}  # noqa: E731
+        return [sq((0, 0), 5.0, 0), tri((-1.5, 0.5), 1.6, 0.4, 1), tri((9.0, 0.0), 2.0, 1.1, 0)]
     if name == "keyhole":
         # a 270 degree arc closed by its chord
         return [{"kind": "keyhole", "c": np.array([0.2, -0.1]), "r": 1.2, "depth": 0}]
@@ -203,6 +207,10 @@ def present(curves, pr):
             new.append((t, p))
         ents = new
         V2 = np.vstack([V2] + [np.array(extra)]) if extra else V2
+    if pr.get("spare_vertex"):
+        # a vertex nothing refers to, ahead of all the others (what is left behind when entities are removed)
+        V2 = np.vstack([[[37.5, -41.25]], V2])
+        ents = [(t, [int(i) + 1 for i in p]) for t, p in ents]
     objs = []
     for t, p in ents:
         if t == "Line":
@@ -315,7 +323,7 @@ class C14(World):
             dup = rng.random() < 0.25
             ops.append({"op": "present", "salt": rng.randrange(2**31), "max_split": rng.choice([1, 2, 3, 5]), "permute": rng.random() < 0.85, "reverse_p": rng.choice([0.0, 0.5, 1.0]),
                         "permute_vertices": rng.random() < 0.5, "dup_vertices": dup, "process": rng.random() < (0.6 if dup else 0.5), "closed_arc": rng.random() < 0.3, "rs": rng.randrange(2**31),
-                        "arc_mid": rng.choice([0.5, 0.5, 0.5, 0.05, 0.15, 0.3, 0.85, 0.95]), "arc_pieces": rng.choice([1, 1, 2, 3]), "via": "dxf_bulge" if rng.random() < 0.15 else "entities"})
+                        "arc_mid": rng.choice([0.5, 0.5, 0.5, 0.05, 0.15, 0.3, 0.85, 0.95]), "arc_pieces": rng.choice([1, 1, 2, 3]), "spare_vertex": rng.random() < 0.2, "via": "dxf_bulge" if rng.random() < 0.15 else "entities"})
             for _ in range(cfg["n_ops"]):
                 k = pick(rng, cfg["weights"])
                 op = {"op": k, "rs": rng.randrange(2**31), "i": rng.randrange(1000)}
